@@ -938,7 +938,7 @@ class Operation:
         scaled = True
         for tensor in [self.ifm, self.ifm2, self.ofm]:
             if tensor is not None:
-                if tensor.quantization is None:
+                if tensor.quantization is None or tensor.quantization.scale_f32 is None:
                     scaled = False
                     break
 
